@@ -5,6 +5,7 @@ package main
 // every byte string) is NOT decided: see DESIGN.md.
 
 import (
+	"go/constant"
 	"fmt"
 	"go/types"
 	"sort"
@@ -776,6 +777,37 @@ func c03Constants(c *Ctx, r *Report, crc *ssa.Function) {
 	}
 	for _, g := range tables {
 		vals, ok := globalArrayConsts(c, "packet", g.Name())
+		if !ok {
+			// a table computed when the package (or its first user, under sync.Once) initialises: its
+			// contents are not evaluated; like for the bitwise form, the constants are: the reflected
+			// polynomial occurs in the code that fills it, and nothing else writes it (the reads'
+			// ordering after the Once is the shared-state rule's business, R3.5)
+			if builders, okB := tableBuilders(c, g); okB && len(builders) > 0 {
+				has := false
+				var names []string
+				for _, bf := range builders {
+					names = append(names, bf.Name())
+					for _, b := range bf.Blocks {
+						for _, in := range b.Instrs {
+							for _, op := range in.Operands(nil) {
+								if k, isK := (*op).(*ssa.Const); isK && k.Value != nil && k.Value.Kind() == constant.Int {
+									if v, exact := constant.Int64Val(k.Value); exact && v == 0xA001 {
+										has = true
+									}
+								}
+							}
+						}
+					}
+				}
+				sort.Strings(names)
+				if has {
+					r.ok("R3.4", id, "lookup table "+g.Name()+" is filled once at initialisation by "+strings.Join(names, ", ")+", in which the reflected polynomial 0xA001 occurs (constants only: the table's contents are not evaluated)", pos, true)
+				} else {
+					r.fail("R3.4", id, "the code that fills lookup table "+g.Name()+" does not contain the reflected polynomial 0xA001", pos, strings.Join(names, ", "), "crc-polynomial")
+				}
+				continue
+			}
+		}
 		if !ok || len(vals) != 256 || globalWrittenOutsideInit(c, g) {
 			r.undecided("R3.4", id, "lookup table "+g.Name()+" is not a constant 256-entry composite literal that is never written", pos)
 			continue
@@ -825,4 +857,75 @@ func globalWrittenOutsideInit(c *Ctx, g *ssa.Global) bool {
 		}
 	}
 	return false
+}
+
+// tableBuilders: the functions that fill package-level table g, provided every writer is the
+// package initialiser (directly, or by storing the result of a module function) or a function
+// handed to (*sync.Once).Do. ok is false when some other function writes the table.
+func tableBuilders(c *Ctx, g *ssa.Global) ([]*ssa.Function, bool) {
+	var out []*ssa.Function
+	seen := map[*ssa.Function]bool{}
+	add := func(f *ssa.Function) {
+		if f != nil && !seen[f] {
+			seen[f] = true
+			out = append(out, f)
+		}
+	}
+	onceArg := map[*ssa.Function]bool{}
+	for _, fn := range c.allFuncs("packet") {
+		for _, b := range fn.Blocks {
+			for _, in := range b.Instrs {
+				call, ok := in.(ssa.CallInstruction)
+				if !ok {
+					continue
+				}
+				sc := call.Common().StaticCallee()
+				if sc == nil || sc.String() != "(*sync.Once).Do" || len(call.Common().Args) != 2 {
+					continue
+				}
+				switch a := call.Common().Args[1].(type) {
+				case *ssa.Function:
+					onceArg[a] = true
+				case *ssa.MakeClosure:
+					if f, ok := a.Fn.(*ssa.Function); ok {
+						onceArg[f] = true
+					}
+				}
+			}
+		}
+	}
+	fns := c.allFuncs("packet")
+	if ini := c.pkg("packet").Func("init"); ini != nil {
+		fns = append(fns, ini) // the synthetic package initialiser
+	}
+	for _, fn := range fns {
+		for _, b := range fn.Blocks {
+			for _, in := range b.Instrs {
+				switch x := in.(type) {
+				case *ssa.Store:
+					if globalBase(x.Addr, 0, map[ssa.Value]bool{}) != g {
+						continue
+					}
+					switch {
+					case fn.Name() == "init" && fn.Parent() == nil:
+						add(fn)
+						if call, ok := x.Val.(*ssa.Call); ok {
+							if sc := call.Common().StaticCallee(); sc != nil && c.inModule(sc) {
+								add(sc)
+							}
+						}
+					case onceArg[fn]:
+						add(fn)
+					default:
+						return nil, false
+					}
+				case *ssa.Slice:
+					if x.X == ssa.Value(g) && !(fn.Name() == "init" && fn.Parent() == nil) && !onceArg[fn] {
+						return nil, false
+					}
+				}
+			}
+		}
+	}
+	return out, true
 }
